@@ -362,9 +362,13 @@ func (s *Session) writer(e *End) func(t *kernel.Task) {
 				pkt := rtmp.NewSetChunkSize()
 				pkt.ChunkSize = uint32(op.N[0])
 				b, _ := pkt.MarshalBinary()
-				want := Msg{Type: 1, SID: 0, TS: 0, Payload: b}
+				var scsSID uint32 // optional second argument: the message stream id it is announced on
+				if len(op.N) > 1 {
+					scsSID = uint32(op.N[1])
+				}
+				want := Msg{Type: 1, SID: scsSID, TS: 0, Payload: b}
 				st0, w0 := s.S.Now(), e.Conn.Out.St.Writes
-				err := e.Proto.WritePacket(pkt, 0)
+				err := e.Proto.WritePacket(pkt, int(scsSID))
 				e.Sent = append(e.Sent, Sent{Op: i, Msg: want, IsSCS: true, Err: err, EndOff: e.Conn.Out.Total, Step0: st0, Step1: s.S.Now(), W0: w0, W1: e.Conn.Out.St.Writes})
 				t.Evf("wrote-scs", "%s %d err=%v", e.Name, op.N[0], err)
 				if err != nil {
